@@ -23,7 +23,7 @@ if prev:
              "Prefer mechanisms such as: a subtle ordering change, an off-by-one in a boundary, state leaking between two calls, an error path "
              "that forgets a cleanup step, a condition that is inverted only for a rare combination.\n")
 if focus:
-    note += "\nAim at this part of the statement in particular: \"%s\"\n" % focus
+    note += ("\nAim at this in particular: %s\n" % focus) if focus.startswith("(") else ("\nAim at this part of the statement in particular: \"%s\"\n" % focus)
 print(f"""You are helping to evaluate a verification harness by producing a realistic *bug* (a seeded defect) in a Go library.
 
 Workspace: a scratch git worktree of the library rogpeppe/go-internal at {wt} (Go 1.23, offline sandbox). Work ONLY inside {wt} and {out}. Do NOT read, list or modify /verif or /repo (they are off limits: your change must be independent of any existing checker), and do not use the network. Every shell command that runs go needs: export GOFLAGS=-mod=mod GOPROXY=off GOSUMDB=off GOTOOLCHAIN=local
